@@ -58,7 +58,7 @@ type gateAPI struct {
 }
 
 func c29(c *Ctx) {
-	c29Gate(c, gateAPI{"quic", "gate", "(*quic.gate).lock", "(*quic.gate).waitAndLock", "(*quic.gate).lockIfSet", "(*quic.gate).unlock", "quic.newLockedGate", nil,
+	proven := c29Gate(c, gateAPI{"quic", "gate", "(*quic.gate).lock", "(*quic.gate).waitAndLock", "(*quic.gate).lockIfSet", "(*quic.gate).unlock", "quic.newLockedGate", nil,
 		[]string{"quic.newStream", "quic.newQueue", "(*quic.localStreamLimits).init"}})
 	c29Gate(c, gateAPI{"internal/gate", "Gate", "(*internal/gate.Gate).Lock", "(*internal/gate.Gate).WaitAndLock", "(*internal/gate.Gate).LockIfSet", "(*internal/gate.Gate).Unlock", "internal/gate.New", nil, nil})
 
@@ -70,7 +70,7 @@ func c29(c *Ctx) {
 	c.Count("internal/gate.New", Calls("(*internal/gate.Gate).Unlock").ArgIs(1, "$0"), 1, 1)
 	c.Count("internal/gate.New", Calls("(*internal/gate.Gate).Unlock", "(*internal/gate.Gate).Lock", "(*internal/gate.Gate).WaitAndLock", "(*internal/gate.Gate).LockIfSet"), 1, 1)
 
-	c29Typestate(c)
+	c29Typestate(c, proven)
 	c29Queue(c)
 	c.XDump()
 }
@@ -78,7 +78,17 @@ func c29(c *Ctx) {
 // ---------------------------------------------------------------------------
 // gate semantics by path enumeration
 
-func c29Gate(c *Ctx, g gateAPI) {
+// c29Gate checks the gate methods of one gate type by path enumeration and
+// returns, per method name, whether its path obligation was established.
+//
+// A gate method may use lockIfSet as its fast path. Such a call is evaluated
+// through lockIfSet's own obligation (true <=> it received once from set, i.e.
+// acquired; false <=> it received nothing): on a path that took the edge where
+// the call's result is true the call counts as one receive from set, on the
+// false edge as none. The summary is used only when lockIfSet's obligation was
+// established in this run, and only for a call on the method's own receiver.
+func c29Gate(c *Ctx, g gateAPI) map[string]bool {
+	proven := map[string]bool{}
 	setCh, unsetCh := "$r.set", "$r.unset"
 	isGateCh := func(on string) bool { return on == setCh || on == unsetCh }
 	any := func(string) bool { return true }
@@ -95,116 +105,99 @@ func c29Gate(c *Ctx, g gateAPI) {
 		c.OK("gate-paths", name+": loop-free, enumerable", fmt.Sprintf("%d path(s)", len(ps)))
 		return ps
 	}
-	check := func(name, what string, ps []*XPath, ok func(x *XPath) string) {
+	const undecided = "undecided: "
+	check := func(name, what string, ps []*XPath, ok func(x *XPath) string) bool {
 		if ps == nil {
 			c.Undecided("gate-paths", name+": "+what, "no paths")
-			return
+			return false
 		}
 		n := 0
 		for _, x := range ps {
 			if _, isPanic := x.Exit.(*ssa.Panic); isPanic {
 				c.Fail("gate-paths", name+": "+what, InstrPos(x.Exit), "a path ends in panic")
-				return
+				return false
 			}
-			if why := ok(x); why != "" {
+			why := ok(x)
+			if why == infeasiblePath {
+				continue
+			}
+			if strings.HasPrefix(why, undecided) {
+				c.Undecided("gate-paths", name+": "+what, strings.TrimPrefix(why, undecided)+" [path events: "+evs(x)+"]")
+				return false
+			}
+			if why != "" {
 				c.Fail("gate-paths", name+": "+what, InstrPos(x.Exit), why+" [path events: "+evs(x)+"]")
-				return
+				return false
 			}
 			n++
 		}
+		if n == 0 {
+			c.Undecided("gate-paths", name+": "+what, "no feasible path")
+			return false
+		}
 		c.OK("gate-paths", name+": "+what, fmt.Sprintf("%d path(s)", n))
+		return true
 	}
-	noOther := func(x *XPath) string {
-		if n := x.Count("send", any); n != 0 {
-			return fmt.Sprintf("%d channel send(s) in an acquire operation", n)
-		}
-		if n := x.Count("call", func(on string) bool { return on == g.lock || on == g.wait || on == g.lockIfSet || on == g.unlock }); n != 0 {
-			return "calls another gate operation"
-		}
-		return ""
-	}
-
-	// lock
-	ps := paths(g.lock)
-	check(g.lock, "exactly one receive; true iff from set", ps, func(x *XPath) string {
-		if w := noOther(x); w != "" {
-			return w
-		}
-		if n := x.Count("recv", any); n != 1 {
-			return fmt.Sprintf("%d receives on a path", n)
-		}
-		from := ""
+	// recvs lists the channels received from on the path, in order, the
+	// receives made inside summarised callees included. self is the method
+	// being checked.
+	recvs := func(self string, x *XPath) (from []string, why string) {
 		for _, e := range x.Events {
-			if e.Kind == "recv" {
-				from = e.On
-			}
-		}
-		switch {
-		case from == setCh && x.Ret(0) == "true", from == unsetCh && x.Ret(0) == "false":
-			return ""
-		}
-		return "receive from " + from + " returns " + x.Ret(0)
-	})
-	// waitAndLock
-	ps = paths(g.wait)
-	check(g.wait, "nil => exactly one receive, from set; error => no gate receive", ps, func(x *XPath) string {
-		if w := noOther(x); w != "" {
-			return w
-		}
-		nGate := x.Count("recv", isGateCh)
-		nSet := x.Count("recv", func(on string) bool { return on == setCh })
-		if x.Ret(0) == "nil" {
-			if nGate != 1 || nSet != 1 {
-				return fmt.Sprintf("returns nil after %d gate receive(s), %d from set", nGate, nSet)
-			}
-			return ""
-		}
-		if nGate != 0 {
-			return fmt.Sprintf("returns %s after taking the gate token", x.Ret(0))
-		}
-		return ""
-	})
-	hasNil, hasErr := false, false
-	for _, x := range ps {
-		if x.Ret(0) == "nil" {
-			hasNil = true
-		} else if strings.HasPrefix(x.Ret(0), ".Err(") {
-			hasErr = true
-		}
-	}
-	c.Check(hasNil && hasErr, "gate-paths", g.wait+": has an acquiring path and a context-error path", token.NoPos, "", "waitAndLock must be able to return both nil and ctx.Err()")
-	// the blocking wait also listens on the context: otherwise a cancelled waiter never returns
-	{
-		fn := c.MustFn(g.wait)
-		ok := false
-		if fn != nil {
-			for _, b := range fn.Blocks {
-				for _, in := range b.Instrs {
-					if s, isSel := in.(*ssa.Select); isSel && s.Blocking {
-						a, d := false, false
-						for _, st := range s.States {
-							if Term(st.Chan) == setCh {
-								a = true
-							}
-							if strings.HasPrefix(Term(st.Chan), ".Done(") {
-								d = true
-							}
-						}
-						ok = ok || a && d
-					}
+			switch e.Kind {
+			case "send":
+				return nil, "channel send in an acquire operation"
+			case "recv":
+				from = append(from, e.On)
+			case "defer", "go":
+				if e.On == g.lock || e.On == g.wait || e.On == g.lockIfSet || e.On == g.unlock {
+					return nil, "calls another gate operation"
+				}
+			case "call":
+				switch {
+				case e.On == g.lock || e.On == g.wait || e.On == g.unlock:
+					return nil, "calls another gate operation"
+				case e.On != g.lockIfSet:
+					continue
+				case self == g.lockIfSet:
+					return nil, "calls another gate operation"
+				case x.Arg(e, 0) != "$r":
+					return nil, "calls " + g.lockIfSet + " on another gate (" + x.Arg(e, 0) + ")"
+				case !proven[g.lockIfSet]:
+					return nil, undecided + "calls " + g.lockIfSet + ", whose own path obligation is not established in this run"
+				}
+				edge, feasible := Q29BoolEdge(x, e)
+				switch {
+				case !feasible:
+					return nil, infeasiblePath
+				case edge > 0:
+					from = append(from, setCh) // lockIfSet() == true: it received once, from set
+				case edge < 0: // lockIfSet() == false: it received nothing
+				default:
+					return nil, "the result of " + g.lockIfSet + " is not tested on this path: the gate may or may not have been acquired"
 				}
 			}
 		}
-		c.Check(ok, "gate-paths", g.wait+": blocking select waits on set and on ctx.Done()", token.NoPos, "", "no blocking select over {set, ctx.Done()}")
+		return from, ""
 	}
-	// lockIfSet
-	ps = paths(g.lockIfSet)
-	check(g.lockIfSet, "true => one receive from set; false => none", ps, func(x *XPath) string {
-		if w := noOther(x); w != "" {
+	count := func(from []string, pred func(string) bool) int {
+		n := 0
+		for _, f := range from {
+			if pred(f) {
+				n++
+			}
+		}
+		return n
+	}
+
+	// lockIfSet (first: the other acquire operations may be written in terms of it)
+	ps := paths(g.lockIfSet)
+	okPaths := check(g.lockIfSet, "true => one receive from set; false => none", ps, func(x *XPath) string {
+		from, w := recvs(g.lockIfSet, x)
+		if w != "" {
 			return w
 		}
-		nAll := x.Count("recv", any)
-		nSet := x.Count("recv", func(on string) bool { return on == setCh })
+		nAll := len(from)
+		nSet := count(from, func(on string) bool { return on == setCh })
 		switch x.Ret(0) {
 		case "true":
 			if nAll != 1 || nSet != 1 {
@@ -232,14 +225,90 @@ func c29Gate(c *Ctx, g gateAPI) {
 				}
 			}
 		}
-		c.Check(!blocking, "gate-paths", g.lockIfSet+": non-blocking", fn.Pos(), "", "contains a blocking receive")
+		nb := c.Check(!blocking, "gate-paths", g.lockIfSet+": non-blocking", fn.Pos(), "", "contains a blocking receive")
+		proven[g.lockIfSet] = okPaths && nb
+	}
+
+	// lock
+	ps = paths(g.lock)
+	proven[g.lock] = check(g.lock, "exactly one receive; true iff from set", ps, func(x *XPath) string {
+		all, w := recvs(g.lock, x)
+		if w != "" {
+			return w
+		}
+		if n := len(all); n != 1 {
+			return fmt.Sprintf("%d receives on a path", n)
+		}
+		from := all[0]
+		switch {
+		case from == setCh && x.Ret(0) == "true", from == unsetCh && x.Ret(0) == "false":
+			return ""
+		}
+		return "receive from " + from + " returns " + x.Ret(0)
+	})
+	// waitAndLock
+	ps = paths(g.wait)
+	okWait := check(g.wait, "nil => exactly one receive, from set; error => no gate receive", ps, func(x *XPath) string {
+		from, w := recvs(g.wait, x)
+		if w != "" {
+			return w
+		}
+		nGate := count(from, isGateCh)
+		nSet := count(from, func(on string) bool { return on == setCh })
+		if x.Ret(0) == "nil" {
+			if nGate != 1 || nSet != 1 {
+				return fmt.Sprintf("returns nil after %d gate receive(s), %d from set", nGate, nSet)
+			}
+			return ""
+		}
+		if nGate != 0 {
+			return fmt.Sprintf("returns %s after taking the gate token", x.Ret(0))
+		}
+		return ""
+	})
+	hasNil, hasErr := false, false
+	for _, x := range ps {
+		if x.Ret(0) == "nil" {
+			hasNil = true
+		} else if strings.HasPrefix(x.Ret(0), ".Err(") {
+			hasErr = true
+		}
+	}
+	okBoth := c.Check(hasNil && hasErr, "gate-paths", g.wait+": has an acquiring path and a context-error path", token.NoPos, "", "waitAndLock must be able to return both nil and ctx.Err()")
+	proven[g.wait] = okWait && okBoth
+	// the blocking wait also listens on the context: otherwise a cancelled waiter never returns
+	{
+		fn := c.MustFn(g.wait)
+		ok := false
+		if fn != nil {
+			for _, b := range fn.Blocks {
+				for _, in := range b.Instrs {
+					if s, isSel := in.(*ssa.Select); isSel && s.Blocking {
+						a, d := false, false
+						for _, st := range s.States {
+							if Term(st.Chan) == setCh {
+								a = true
+							}
+							if strings.HasPrefix(Term(st.Chan), ".Done(") {
+								d = true
+							}
+						}
+						ok = ok || a && d
+					}
+				}
+			}
+		}
+		c.Check(ok, "gate-paths", g.wait+": blocking select waits on set and on ctx.Done()", token.NoPos, "", "no blocking select over {set, ctx.Done()}")
 	}
 	// unlock
 	ps = paths(g.unlock)
 	pTrue, _ := c.P.ParseAtom("$0")
-	check(g.unlock, "exactly one send; to set iff the argument is true", ps, func(x *XPath) string {
+	proven[g.unlock] = check(g.unlock, "exactly one send; to set iff the argument is true", ps, func(x *XPath) string {
 		if n := x.Count("recv", any); n != 0 {
 			return "unlock receives from a channel"
+		}
+		if n := x.Count("call", func(on string) bool { return on == g.lock || on == g.wait || on == g.lockIfSet || on == g.unlock }); n != 0 {
+			return "calls another gate operation"
 		}
 		if n := x.Count("send", any); n != 1 {
 			return fmt.Sprintf("%d sends on a path", n)
@@ -286,7 +355,11 @@ func c29Gate(c *Ctx, g gateAPI) {
 	c.Writers(g.pkg+"."+g.typ+".unset", append([]string{g.create}, g.installers...)...)
 	c.XFieldRefs(g.pkg+"."+g.typ+".set", nil, gateFns...)
 	c.XFieldRefs(g.pkg+"."+g.typ+".unset", nil, gateFns...)
+	return proven
 }
+
+// infeasiblePath marks a path that takes both edges of tests of one value.
+const infeasiblePath = "\x00infeasible"
 
 func evs(x *XPath) string {
 	var ss []string
@@ -307,8 +380,46 @@ func conds(x *XPath) string {
 // ---------------------------------------------------------------------------
 // acquire/release pairing at every gate lock site of package quic
 
-func c29Typestate(c *Ctx) {
+// gatePrimitive is the typestate contract of a gate method itself: what it is
+// entered holding and what it holds at a return, as a function of the value
+// returned on the path.
+type gatePrimitive struct {
+	contract string
+	entry    []string
+	expect   func(x *XPath) (held []string, why string)
+}
+
+func gatePrimitives() map[string]gatePrimitive {
+	held, none := []string{"$r"}, []string(nil)
+	return map[string]gatePrimitive{
+		"(*quic.gate).lock": {"returns holding $r", nil, func(*XPath) ([]string, string) { return held, "" }},
+		"(*quic.gate).waitAndLock": {"returns holding $r iff the result is nil", nil, func(x *XPath) ([]string, string) {
+			switch r := x.Ret(0); {
+			case r == "nil":
+				return held, ""
+			case r == "":
+				return nil, "no result"
+			}
+			// any other result is an error value only if it cannot be nil; ctx.Err() after <-ctx.Done() is
+			// trusted non-nil (gate-paths requires the error path to be .Err(ctx))
+			return none, ""
+		}},
+		"(*quic.gate).lockIfSet": {"returns holding $r iff the result is true", nil, func(x *XPath) ([]string, string) {
+			switch x.Ret(0) {
+			case "true":
+				return held, ""
+			case "false":
+				return none, ""
+			}
+			return nil, "non-constant result " + x.Ret(0)
+		}},
+		"(*quic.gate).unlock": {"entered holding $r, returns holding nothing", held, func(*XPath) ([]string, string) { return none, "" }},
+	}
+}
+
+func c29Typestate(c *Ctx, proven map[string]bool) {
 	ops := gateOps()
+	prims := gatePrimitives()
 	queueFns := c.P.XGenericMethods("quic.queue")
 	if len(queueFns) < 4 {
 		c.Undecided("anchor", "quic.queue methods", fmt.Sprintf("found %d generic method bodies, expected close/put/get/unlock", len(queueFns)))
@@ -354,6 +465,25 @@ func c29Typestate(c *Ctx) {
 		if fn.Parent() != nil {
 			continue // closures are checked from their parent (closureOps)
 		}
+		if gp, isPrim := prims[name]; isPrim {
+			// a gate method written in terms of other gate methods: the token-channel operations count as
+			// acquire/release next to the calls, and what is held at a return depends on the result.
+			// The callee effects of the table are summaries of the gate-paths obligations: use them only
+			// when those are established in this run.
+			missing := ""
+			for _, e := range c29GateCallees(fn, prims) {
+				if !proven[e] {
+					missing = e
+				}
+			}
+			if missing != "" {
+				c.Undecided("lock-typestate", name+": acquire/release balanced on every path ("+gp.contract+")",
+					"calls "+missing+", whose own gate-paths obligation is not established in this run")
+				continue
+			}
+			c.Q29LockBalancedPaths(name, gp.contract, fops, []string{"set", "unset"}, gp.entry, gp.expect)
+			continue
+		}
 		sites += n
 		nfn++
 		if _, w := entry[name]; w {
@@ -380,6 +510,25 @@ func c29Typestate(c *Ctx) {
 	// the gate constructors are used only where the typestate knows the initial state
 	c.Callers("quic.newLockedGate", "quic.newGate", "quic.newStream")
 	c.Callers("quic.newGate", "quic.newQueue", "(*quic.localStreamLimits).init")
+}
+
+// c29GateCallees lists the gate methods called (or deferred) in fn.
+func c29GateCallees(fn *ssa.Function, prims map[string]gatePrimitive) []string {
+	seen := map[string]bool{}
+	var out []string
+	for _, b := range fn.Blocks {
+		for _, in := range b.Instrs {
+			if ci, ok := in.(ssa.CallInstruction); ok {
+				n := CalleeName(ci.Common())
+				if _, isPrim := prims[n]; isPrim && !seen[n] {
+					seen[n] = true
+					out = append(out, n)
+				}
+			}
+		}
+	}
+	sort.Strings(out)
+	return out
 }
 
 // closureOps finds closures made in fn that release a gate reached through a
